@@ -35,6 +35,10 @@ import (
 
 func setup() {
 	fs := afero.NewMemMapFs() // in-process: files named by configs (phout destination, file sinks) stay in memory
+	// the ammo files the documented example blocks name (docopts.go): constructors that look at the file find one
+	// (only the http/json decoder looks into the file when it is made: a JSON line serves all three documented formats)
+	_ = afero.WriteFile(fs, "./ammo.uri", []byte("/\n"), 0o644)
+	_ = afero.WriteFile(fs, "./ammofile", []byte(`{"host": "h", "method": "GET", "uri": "/"}`+"\n"), 0o644)
 	coreimport.Import(fs)
 	phttpimport.Import(fs)
 	grpcimport.Import(fs)
